@@ -28,6 +28,11 @@ def run(ctx):
         from vlib import Infra
         raise Infra("mux driver failed: " + p.stdout[-2000:])
     ctx.validate("", "Trace_Mux", "Trace_Mux.cfg", t, label="1..16 channels, concurrent NewChannel / Send / Recv / Close, random interleaving of the peer's packets, GOMAXPROCS 1..16, -race")
+    # every packet of a message sent on a logical channel carries that channel's id and the next packet number -
+    # also the empty packet that terminates a message of exactly k packet bodies (transmit driver, JUDGE=C12)
+    tt = os.path.join(ctx.scratch, "tx-c12.ndjson")
+    ctx.run_driver(["tx", "-count", 600 if thorough else 120, "-seed", ctx.seed + 5, "-out", tt])
+    ctx.validate("", "Trace_TxPath", "Trace_TxPath.cfg", tt, label="messages on channel 0 and on logical channels, exact multiples of the packet body included", extra_env={"JUDGE": "C12"})
     ctx.assumptions += ["data-race freedom is observed under the race detector (a report is a violation with the report as replay file), not decided by the specification",
                         "channel ids are read through the guarded hook Channel.VerifChannelID",
                         "the peer acknowledges every channel setup and answers every client message on its channel"]
